@@ -44,7 +44,7 @@ def pending_native(ds):
     return diff
 
 
-def h_step(x, op, lazy=True, na=2):
+def h_step(x, op, lazy=True, na=2, flush_first=False):
     A = ST.sym_rows(x, "a", na)
     B = ST.sym_rows(x, "b", 1)
     ST.distinct(x, [r.id for r in A + B])
@@ -83,6 +83,16 @@ def h_step(x, op, lazy=True, na=2):
         clock.n = 0
         clock.calls = []
         b = ds["A"]
+        if flush_first:
+            # the previous flush is performed by the code under test itself (a read commits and records the
+            # time of the flush); the write under test then comes delta1 later
+            flush_clock = ST.Clock(fixed=[x.dt_us(c * 1000)])
+            SQ.__dict__["datetime"] = S.SymDatetimeClass(flush_clock, loff)
+            b.get_eventcount()
+            SQ.__dict__["datetime"] = S.SymDatetimeClass(clock, loff)
+            if x.sym:
+                mark = len(conn.log)
+            w0 = 0
         new = ST.sym_rows(x, "n", 2, ids=False)
         if op == "insert_one":
             b.insert(ST.event_of_row(x, new[0]))
@@ -257,6 +267,9 @@ def harnesses(tier, prop=PROP, fn=None):
     fn = fn or h_c06
     hs = []
     ops = EVENT_WRITES + (EVENT_READS + BUCKET_OPS + FAILING_BUCKET_OPS if prop == "C06" else [])
+    if prop == "C18":
+        for op in EVENT_WRITES:
+            hs.append((Harness(prop, "sqlite-lazy-after-own-flush-%s" % op, fn, dict(op=op, lazy=True, flush_first=True), "sqlite (lazy commit): a read flushes (the code records the time itself), then %s delta later" % op, split_depth=6), 1800))
     for op in ops:
         hs.append((Harness(prop, "sqlite-lazy-%s" % op, fn, dict(op=op, lazy=True), "sqlite (lazy commit): %s from an arbitrary commit-machinery state (counter, buffered writes, age of last flush symbolic)" % op, split_depth=6), 1800))
     if prop == "C06":
